@@ -382,7 +382,8 @@ Section Safe.
   Proof.
     induction fuel as [|fuel IH]; intros sink stored idx flt s t o Hs H; cbn [inc_single] in H.
     - injection H as <- <- <-. split; [assumption | apply wrote_refl].
-    - destruct (process_changes lo src (asincr stored) b) as [page next] eqn:Hp.
+    - destruct (is_srcfail flt idx); [injection H as <- <- <-; split; [assumption | apply wrote_refl]|].
+      destruct (process_changes lo src (asincr stored) b) as [page next] eqn:Hp.
       assert (Hpg : forall v, In v page -> In v src).
       { intros v Hv. eapply In_firstn with (n := length src).
         rewrite firstn_all. pose proof (page_in_src _ _ _ _ _ _ v Hp Hv) as Hin.
@@ -423,7 +424,7 @@ Section Safe.
               /\ safe1 src (length src) s.
   Proof.
     induction fuel as [|fuel IH]; intros sink stored idx Hs Hf; [lia|].
-    cbn [inc_single].
+    cbn [inc_single is_srcfail].
     destruct (process_changes lo src (asincr stored) b) as [page next] eqn:Hp.
     rewrite proc_inc_nofault.
     destruct (safe1_advance _ _ _ _ _ _ _ Hs Hp) as [Hadv Hle].
@@ -442,7 +443,7 @@ Section Safe.
     length src <= n -> 0 < fuel ->
     inc_single fuel eqf dm lo b src sink (Some n) idx FNone = (sink, Some n, OOk).
   Proof.
-    intros Hn Hf. destruct fuel as [|fuel]; [lia|]. cbn [inc_single asincr].
+    intros Hn Hf. destruct fuel as [|fuel]; [lia|]. cbn [inc_single asincr is_srcfail].
     unfold process_changes. rewrite (skipn_all2 src Hn). cbn [pc_loop].
     rewrite proc_inc_nofault. cbn [nonempty]. now rewrite ds_write_nil.
   Qed.
@@ -501,7 +502,9 @@ Section Safe.
   Proof.
     induction fuel as [|fuel IH]; intros sink mem seen idx flt s mem' seen' o Hs H; cbn [full_single] in H.
     - injection H as <- <- <- <-. repeat split; auto using wrote_refl; discriminate.
-    - destruct (process_changes lo src (asincr mem) b) as [page next] eqn:Hp.
+    - destruct (is_srcfail flt idx);
+        [injection H as <- <- <- <-; repeat split; auto using wrote_refl; discriminate|].
+      destruct (process_changes lo src (asincr mem) b) as [page next] eqn:Hp.
       destruct (proc_full eqf dm sink page idx flt) as [s1 r1] eqn:Hpf.
       destruct (safe1_advance _ _ _ _ _ _ _ Hs Hp) as [Hadv Hle].
       assert (Hpg : forall v, In v page -> In v src) by (intros v; eapply page_src; eauto).
@@ -967,7 +970,9 @@ Section Runs.
     run_job v st r = (st', o) -> good owner n st'.
   Proof.
     intros (Hn & Hown & Hts) (Hb & Hn1 & Hsingle) Hfull H.
-    unfold run_job in H. rewrite Hfull in H. fold eqf dm in H.
+    unfold run_job in H. destruct (r_union r && is_srcfail (r_flt r) 0).
+    { rewrite Hfull in H. injection H as <- <-. split; [exact Hn|]. split; [exact Hown | exact Hts]. }
+    unfold run_body in H. rewrite Hfull in H. fold eqf dm in H.
     destruct Hts as [Hlen Hs].
     destruct (r_union r) eqn:Hu.
     - destruct (inc_union _ _ _ _ _ _ _ _ _ _ _) as [[s t] o1] eqn:Hrun in H.
@@ -1002,7 +1007,8 @@ Section Runs.
     destruct (run_job v st r) as [st' o] eqn:Hrun.
     pose proof (run_inc_safe _ _ _ _ Hg Hwf Hfull Hrun) as Hg'.
     destruct Hg as (Hn & Hown & Hts). destruct Hwf as (Hb & Hn1 & Hsingle).
-    unfold run_job in Hrun. rewrite Hfull, Hflt in Hrun. fold eqf dm in Hrun.
+    unfold run_job in Hrun. rewrite Hflt in Hrun. cbn [is_srcfail] in Hrun. rewrite andb_false_r in Hrun.
+    unfold run_body in Hrun. rewrite Hfull, Hflt in Hrun. fold eqf dm in Hrun.
     destruct Hts as [Hlen Hs].
     destruct (r_union r) eqn:Hu.
     - assert (Ha : 0 < length (st_srcs st)) by lia.
@@ -1063,7 +1069,8 @@ Section Runs.
     st_srcs st' = st_srcs st /\ converged st' /\ foreign_deleted st' /\ good owner n st'.
   Proof.
     intros Hn Hnt Hown (Hb & Hn1 & Hsingle) Hfull H.
-    unfold run_job in H. rewrite Hfull in H. fold eqf dm in H.
+    unfold run_job in H. destruct (r_union r && is_srcfail (r_flt r) 0); [discriminate|].
+    unfold run_body in H. rewrite Hfull in H. fold eqf dm in H.
     destruct (r_union r) eqn:Hu.
     - destruct (full_union _ _ _ _ _ _ _ _ _ _ _) as [[[s mem] seen] o1] eqn:Hrun in H.
       destruct o1; try (injection H as _ H; discriminate). injection H as <-.
@@ -1115,7 +1122,9 @@ Lemma run_full_token v st r st' o :
   st_srcs st' = st_srcs st /\
   st_tok st' = match vm_fs v with FsKeep => st_tok st | FsReset => none_tokens (st_srcs st) end.
 Proof.
-  intros Hfull H Ho. unfold run_job in H. rewrite Hfull in H.
+  intros Hfull H Ho. unfold run_job in H. destruct (r_union r && is_srcfail (r_flt r) 0).
+  { rewrite Hfull in H. injection H as <- <-. auto. }
+  unfold run_body in H. rewrite Hfull in H.
   destruct (r_union r).
   - destruct (full_union _ _ _ _ _ _ _ _ _ _ _) as [[[s mem] seen] o1] in H.
     destruct o1; injection H as <- <-; try congruence; auto.
@@ -1125,7 +1134,8 @@ Qed.
 
 Lemma run_srcs v st r st' o : run_job v st r = (st', o) -> st_srcs st' = st_srcs st.
 Proof.
-  unfold run_job. intros H. destruct (r_full r), (r_union r).
+  unfold run_job. destruct (r_union r && is_srcfail (r_flt r) 0); [intros [= <- <-]; reflexivity|].
+  unfold run_body. intros H. destruct (r_full r), (r_union r).
   - destruct (full_union _ _ _ _ _ _ _ _ _ _ _) as [[[s mem] seen] o1] in H.
     destruct o1; injection H as <- <-; reflexivity.
   - destruct (full_single _ _ _ _ _ _ _ _ _ _) as [[[s mem] seen] o1] in H.
@@ -1155,7 +1165,8 @@ Lemma run_idem owner n v st r :
   run_job v st r = (st, OOk).
 Proof.
   intros Hend Hn (Hb & Hn1 & Hsingle) Hfull Hflt.
-  unfold run_job. rewrite Hfull, Hflt. destruct st as [srcs sink tok]. cbn [st_srcs st_sink st_tok] in *.
+  unfold run_job. rewrite Hflt. cbn [is_srcfail]. rewrite andb_false_r.
+  unfold run_body. rewrite Hfull, Hflt. destruct st as [srcs sink tok]. cbn [st_srcs st_sink st_tok] in *.
   destruct (r_union r) eqn:Hu.
   - rewrite inc_union_idem; [reflexivity | assumption | lia | unfold fuel_of; lia].
   - destruct Hend as [Hl He]. assert (Hn' : length srcs = 1) by (rewrite Hn; now apply Hsingle).
